@@ -1,10 +1,226 @@
-import LiquidVerif.Model.BoolParse
+import LiquidVerif.Lemmas.BoolParse
+/-!
+# C12 — conditions follow Liquid truthiness and operator rules
+
+Property theorems about `Model/Value.lean`, `Model/Cond.lean` (is_truthy, _eq, _lt, _contains, the tags) and
+`Model/BoolParse.lean` (the Pratt parser of `logical.py`, its precedence tables regenerated into
+`Gen/C12Tables.lean` on every run).  Helper lemmas live in `Lemmas/`.
+-/
 namespace LiquidVerif.C12
 open LiquidVerif.Value LiquidVerif.Cond LiquidVerif.BoolParse
+open LiquidVerif.Gen
 
-/-- "only false and nil (including undefined values) are falsy": for every value. -/
+/-! ## "only false and nil (including undefined values) are falsy" -/
+
+/-- For **every** value: it is falsy iff it is nil, false or undefined (so `0`, `0.0`, `""`, `[]`, `{}`,
+    empty ranges, NaN, `empty` and `blank` are all truthy). -/
 theorem truthy_iff (v : Val) : isTruthy v = false ↔ (v = .nil ∨ v = .bool false ∨ v = .undef) := by
   cases v <;> simp [isTruthy, toLiquid]
   case bool b => cases b <;> simp
+
+example : isTruthy (.int 0) = true ∧ isTruthy (.str "") = true ∧ isTruthy (.list []) = true ∧
+    isTruthy (.float .nan) = true ∧ isTruthy .empty = true := by decide
+
+/-! ## "`and` and `or` have equal precedence and group from the right unless parentheses say otherwise" -/
+
+/-- `and` and `or` have the same precedence in the table read from the source, below every comparison
+    operator, and `contains` binds tighter than the relational operators. -/
+theorem and_or_equal_precedence :
+    prec (.op .and) = prec (.op .or) ∧
+    (∀ o : Op, o ≠ .and → o ≠ .or → prec (.op .and) < prec (.op o)) ∧
+    (∀ o : Op, o ≠ .and → o ≠ .or → o ≠ .contains → prec (.op o) < prec (.op .contains)) := by
+  refine ⟨by decide, ?_, ?_⟩ <;> intro o <;> cases o <;> decide
+
+/-- Every token kind has a precedence of at least `PRECEDENCE_LOWEST`, so a parse at the lowest precedence stops
+    only at the end of input or at a token that is not a binary operator (this is why the `while` body of
+    `parse_grouped_expression` can only raise). -/
+theorem prec_ge_lowest (t : Tok) : C12Tables.groupPrec ≤ prec t ∧ C12Tables.topPrec ≤ prec t := by
+  cases t with
+  | op o => cases o <;> decide
+  | atom n => exact ⟨by simp only [prec]; decide, by simp only [prec]; decide⟩
+  | _ => decide
+
+inductive LogOp | and | or
+  deriving DecidableEq, Repr
+
+def LogOp.tok : LogOp → Tok
+  | .and => .op .and
+  | .or => .op .or
+
+def LogOp.mk : LogOp → E → E → E
+  | .and, l, r => .and l r
+  | .or, l, r => .or l r
+
+/-- what may follow an operand of an `and`/`or` chain: the end, a non-operator (`)` `,` `else` …), or `and`/`or` -/
+def LowStop (rest : List Tok) : Prop :=
+  Stop rest ∨ ∃ (o : LogOp) (r : List Tok), rest = o.tok :: r
+
+/-- `ts` is an *operand* read as the tree `e`: in operand position, at the precedence of a whole condition or of
+    the right-hand side of `and`/`or`, the parser reads exactly `ts`, builds `e`, and goes on with what follows. -/
+def IsOperand (fl : Flags) (ts : List Tok) (e : E) : Prop :=
+  ∀ p rest, p ≤ prec (.op .and) → LowStop rest → parsePrim fl p (ts ++ rest) = loop fl p e rest
+
+/-- `ts` is a *primary*: read as the unit `e` whatever the precedence and whatever follows. -/
+def IsPrimary (fl : Flags) (ts : List Tok) (e : E) : Prop :=
+  ∀ p rest, parsePrim fl p (ts ++ rest) = loop fl p e rest
+
+/-- the token list `a₁ op₁ a₂ op₂ … aₙ` -/
+def chainToks : List Tok → List (LogOp × List Tok × E) → List Tok
+  | a, [] => a
+  | a, (o, b, _) :: r => a ++ o.tok :: chainToks b r
+
+/-- the tree `a₁ op₁ (a₂ op₂ (… aₙ))` -/
+def chainTree : E → List (LogOp × List Tok × E) → E
+  | a, [] => a
+  | a, (o, _, eb) :: r => o.mk a (chainTree eb r)
+
+theorem chain_aux (fl : Flags) (tail : List Tok) (ht : Stop tail) :
+    ∀ (rest : List (LogOp × List Tok × E)) (a : List Tok) (ea : E) (p : Nat), p ≤ prec (.op .and) →
+      IsOperand fl a ea → (∀ x ∈ rest, IsOperand fl x.2.1 x.2.2) →
+      parsePrim fl p (chainToks a rest ++ tail) = some (chainTree ea rest, tail) := by
+  intro rest
+  induction rest with
+  | nil =>
+    intro a ea p hp ha _
+    simp only [chainToks, chainTree]
+    rw [ha p tail hp (Or.inl ht)]
+    exact loop_at_stop fl p ea tail ht
+  | cons x rest ih =>
+    intro a ea p hp ha hr
+    obtain ⟨o, b, eb⟩ := x
+    simp only [chainToks, chainTree, List.append_assoc, List.cons_append]
+    rw [ha p _ hp (Or.inr ⟨o, _, rfl⟩)]
+    have hb : IsOperand fl b eb := hr (o, b, eb) (by simp)
+    have hrec := ih b eb (prec o.tok) (by cases o <;> decide) hb (fun x hx => hr x (by simp [hx]))
+    have hstop : stops o.tok p = false := by
+      have : prec o.tok = prec (.op .and) := by cases o <;> decide
+      simp [stops, C12Tables.breakStrict, this]; omega
+    rw [loop_bin fl p ea o.tok _ tail (chainTree eb rest) (o.mk ea (chainTree eb rest)) hstop
+      (by cases o <;> decide) hrec (by cases o <;> rfl)]
+    exact loop_at_stop fl p _ tail ht
+
+/-- **Right associativity, any chain length.**  A condition `a₁ op₁ a₂ op₂ … aₙ` whose `opᵢ` are `and`/`or` in
+    any mixture and whose `aᵢ` are operands (atoms, comparisons, parenthesised groups — see `operand_*`) parses
+    to `a₁ op₁ (a₂ op₂ (… aₙ))`.  By induction on the list; no bound on its length. -/
+theorem parse_right_assoc (fl : Flags) (a : List Tok) (ea : E) (rest : List (LogOp × List Tok × E))
+    (ha : IsOperand fl a ea) (hr : ∀ x ∈ rest, IsOperand fl x.2.1 x.2.2) :
+    parse fl (chainToks a rest) = some (chainTree ea rest) := by
+  have := chain_aux fl [] (Or.inl rfl) rest a ea C12Tables.topPrec (by decide) ha hr
+  simp only [List.append_nil] at this
+  simp [parse, this]
+
+/-- The same inside a ternary (`inline=True`) or before a `)`: the chain is read up to the first token that is
+    not a binary operator, which is left in the stream. -/
+theorem parse_right_assoc_inline (fl : Flags) (a : List Tok) (ea : E) (rest : List (LogOp × List Tok × E))
+    (tail : List Tok) (ht : Stop tail)
+    (ha : IsOperand fl a ea) (hr : ∀ x ∈ rest, IsOperand fl x.2.1 x.2.2) :
+    parseInline fl (chainToks a rest ++ tail) = some (chainTree ea rest, tail) :=
+  chain_aux fl tail ht rest a ea C12Tables.topPrec (by decide) ha hr
+
+/-- a literal / path / range literal is a primary -/
+theorem primary_atom (fl : Flags) (n : Nat) : IsPrimary fl [.atom n] (.atom n) := by
+  intro p rest; simpa using parsePrim_atom fl p n rest
+
+/-- **Parentheses say otherwise.**  With `logical_parentheses` on, `( X )` is a primary read as whatever `X`
+    alone parses to — for every token list `X`, however deep. -/
+theorem primary_group (fl : Flags) (inner : List Tok) (e : E) (hp : fl.allowParens = true)
+    (h : parse fl inner = some e) : IsPrimary fl (.lp :: inner ++ [.rp]) e := by
+  intro p rest
+  have h0 : parsePrim fl C12Tables.groupPrec inner = some (e, []) := by
+    unfold parse at h
+    have : C12Tables.groupPrec = C12Tables.topPrec := by decide
+    rw [this]
+    split at h <;> simp_all
+  have h1 := parsePrim_append (.rp :: rest) (Or.inr ⟨.rp, rest, rfl, by decide⟩) h0
+  simp only [List.nil_append] at h1
+  have := parsePrim_group fl p (inner ++ .rp :: rest) rest e hp h1
+  simpa using this
+
+theorem operand_of_primary {fl ts e} (h : IsPrimary fl ts e) : IsOperand fl ts e :=
+  fun p rest _ _ => h p rest
+
+/-- the comparison node an operator token builds -/
+def cmpOf : Op → Option Cmp
+  | .eq => some .eq | .ne => some .ne | .lg => some .ne | .lt => some .lt | .gt => some .gt
+  | .le => some .le | .ge => some .ge | .contains => some .contains | .and => none | .or => none
+
+/-- **Comparisons bind tighter than `and`/`or`.**  `x ⋈ y` between primaries is one operand of a chain: what
+    follows (`and`, `or`, `)`, end) is not swallowed by `y`. -/
+theorem operand_cmp (fl : Flags) (a b : List Tok) (ea eb : E) (o : Op) (c : Cmp) (ho : cmpOf o = some c)
+    (ha : IsPrimary fl a ea) (hb : IsPrimary fl b eb) :
+    IsOperand fl (a ++ .op o :: b) (.cmp c ea eb) := by
+  intro p rest hp hrest
+  have hlow : loop fl (prec (.op o)) eb rest = some (eb, rest) := by
+    rcases hrest with hs | ⟨lo, r, rfl⟩
+    · exact loop_at_stop _ _ _ _ hs
+    · apply loop_stop
+      left
+      cases lo <;> cases o <;> simp [cmpOf] at ho <;> decide
+  have hpp : parsePrim fl (prec (.op o)) (b ++ rest) = some (eb, rest) := by rw [hb]; exact hlow
+  have hstop : stops (.op o) p = false := by
+    have : prec (.op .and) ≤ prec (.op o) := by cases o <;> decide
+    simp [stops, C12Tables.breakStrict]; omega
+  have hbin : isBin (.op o) = true := by cases o <;> decide
+  have hmk : mkInfix (.op o) ea eb = some (.cmp c ea eb) := by
+    cases o <;> simp [cmpOf] at ho <;> subst ho <;> rfl
+  simp only [List.append_assoc, List.cons_append]
+  rw [ha, loop_bin fl p ea (.op o) (b ++ rest) rest eb _ hstop hbin hpp hmk]
+
+/-- **`not` takes everything to its right**: `not X` is the negation of whatever `X` parses to. -/
+theorem not_spec (fl : Flags) (ts : List Tok) (e : E) (hn : fl.allowNot = true) (h : parse fl ts = some e) :
+    parse fl (.not :: ts) = some (.not e) := by
+  have h0 : parsePrim fl C12Tables.notOperandPrec ts = some (e, []) := by
+    unfold parse at h
+    have : C12Tables.notOperandPrec = C12Tables.topPrec := by decide
+    rw [this]
+    split at h <;> simp_all
+  have := parsePrim_not fl C12Tables.topPrec ts [] e hn h0
+  simp [parse, this, loop_nil]
+
+/-- The default environment (`logical_not_operator = logical_parentheses = False`) rejects both. -/
+theorem default_env_rejects (ts : List Tok) :
+    parse ⟨false, false⟩ (.not :: ts) = none ∧ parse ⟨false, false⟩ (.lp :: ts) = none := by
+  constructor <;> simp [parse, parsePrim]
+
+/-- A successful parse consumes tokens (`parse_boolean_primitive` always advances): the `else none` branches of
+    the model are dead, and a condition of `n` tokens is parsed in at most `n` recursive calls. -/
+theorem tokens_strictly_consumed (fl : Flags) (p : Nat) (ts : List Tok) (e : E) (r : List Tok)
+    (h : parsePrim fl p ts = some (e, r)) : r.length < ts.length := parsePrim_consumes h
+
+/-! ### non-vacuity: the documentation's own example and a grouped one -/
+
+/-- `true and false and false or true` is `(true and (false and (false or true)))` (docs/tag_reference.md) -/
+example : parse ⟨false, false⟩ [.atom 0, .op .and, .atom 1, .op .and, .atom 2, .op .or, .atom 3]
+    = some (.and (.atom 0) (.and (.atom 1) (.or (.atom 2) (.atom 3)))) :=
+  parse_right_assoc _ [.atom 0] (.atom 0)
+    [(.and, [.atom 1], .atom 1), (.and, [.atom 2], .atom 2), (.or, [.atom 3], .atom 3)]
+    (operand_of_primary (primary_atom _ 0))
+    (by
+      intro x hx
+      simp at hx
+      rcases hx with rfl | rfl | rfl <;> exact operand_of_primary (primary_atom _ _))
+
+/-- … and it evaluates to false, where Python's grouping would give true -/
+example : evalCond (fun n => .bool (n == 0 || n == 3)) (fun _ => "")
+    (.and (.atom 0) (.and (.atom 1) (.or (.atom 2) (.atom 3)))) = .ok false := by decide
+
+/-- `(a or b) and c == d or e` : group, comparison and chain together -/
+example : parse ⟨true, true⟩
+    [.lp, .atom 0, .op .or, .atom 1, .rp, .op .and, .atom 2, .op .eq, .atom 3, .op .or, .atom 4]
+    = some (.and (.or (.atom 0) (.atom 1)) (.or (.cmp .eq (.atom 2) (.atom 3)) (.atom 4))) := by
+  have hg : IsPrimary ⟨true, true⟩ (.lp :: [.atom 0, .op .or, .atom 1] ++ [.rp]) (.or (.atom 0) (.atom 1)) :=
+    primary_group _ _ _ rfl
+      (parse_right_assoc _ [.atom 0] (.atom 0) [(.or, [.atom 1], .atom 1)]
+        (operand_of_primary (primary_atom _ 0))
+        (by intro x hx; simp at hx; subst hx; exact operand_of_primary (primary_atom _ _)))
+  exact parse_right_assoc _ _ _
+    [(.and, [.atom 2, .op .eq, .atom 3], .cmp .eq (.atom 2) (.atom 3)), (.or, [.atom 4], .atom 4)]
+    (operand_of_primary hg)
+    (by
+      intro x hx
+      simp at hx
+      rcases hx with rfl | rfl
+      · exact operand_cmp _ [.atom 2] [.atom 3] _ _ .eq .eq rfl (primary_atom _ 2) (primary_atom _ 3)
+      · exact operand_of_primary (primary_atom _ _))
 
 end LiquidVerif.C12
